@@ -194,6 +194,24 @@ def post(rng, t, o, under_par=None, top=True):
     return t
 
 
+def tlen(t):
+    """length of a layout tree (gen.child_len extended with the wrappers of this module)"""
+    if t[0] in ('parx', 'virt'):
+        return tlen(t[3])
+    if t[0] == 'par':
+        return tlen(t[3])
+    if t[0] == 'unm':
+        return tlen(t[1])
+    if t[0] == 'np':
+        return int(t[2][0]) if t[2] else 0
+    r = G.child_len(t)
+    return int(r) if r is not None else 0
+
+
+def offsets_beyond(t):
+    return t[0] == 'lo' and len(set(t[2])) == 1 and int(t[2][0]) > tlen(t[3])
+
+
 def tree_has(t, heads):
     if not is_node(t):
         return False
@@ -397,6 +415,8 @@ def risks(c):
         out.append('datetime')
     if op == 'buffers' and has_empty_buffer(tree):
         out.append('empty-buffer')
+    if op in ('buffers', 'pickle') and tree_feature(tree, offsets_beyond):
+        out.append('offsets-beyond-content')
     if op == 'buffers' and 'lazy' in o and tree_feature(tree, lambda t: t[0] == 'rec' and t[2] == 'tuple'):
         out.append('lazy-tuple')
     if op in ('numpy', 'numpy2') and (tree_feature(tree, lambda t: (t[0] == 'np' and 0 in [int(x) for x in t[2]]) or (t[0] == 'reg' and int(t[1]) == 0)
@@ -438,6 +458,15 @@ def corpus_cases():
     return out
 
 
+def intify(t):
+    """parsed text -> the generator's representation (numbers as ints)"""
+    if isinstance(t, list):
+        return [intify(x) for x in t]
+    if re.match(r'^-?\d+$', t):
+        return int(t)
+    return t
+
+
 def replay_cases(path, prefix=''):
     out = []
     for ln in open(path):
@@ -446,7 +475,7 @@ def replay_cases(path, prefix=''):
             continue
         t = parse(ln)
         out.append(C.Case(prefix + t[0], t[1], [unparse(t[2])], [unparse(t[3])],
-                          dict(nontrivial=True, tags=dict(op=t[1], stream='corpus'), tree=t[3], opts=t[2], type=None)))
+                          dict(nontrivial=True, tags=dict(op=t[1], stream='corpus'), tree=intify(t[3]), opts=intify(t[2]), type=None)))
     return out
 
 
@@ -804,6 +833,8 @@ def auto_sig(c, obl, what, lines):
         return 'packed-simplifies-union'
     if 'generated array does not have the declared length' in text and '/lazy' in what:
         return 'buffers-lazy-declared-length'
+    if c.op in ('buffers', 'pickle') and 'buffer is too short for NumpyArray' in text and tree_feature(tree, offsets_beyond):
+        return 'buffers-empty-lists-offsets-beyond-content'
     if c.op in ('buffers', 'pickle'):
         if 'must not be shorter than' in text or 'is not valid (ak.is_valid)' in text or 'length mismatch' in text:
             return 'buffers-trimmed-content-under-untrimmed-parent'
@@ -816,9 +847,12 @@ def auto_sig(c, obl, what, lines):
             return 'from_numpy-regulararray-empty-reshape'
         if 'subarray lengths are not regular' in text or ("cannot convert 'None' values" in text and 'refused rectilinear' in what):
             return 'to_numpy-looks-at-unreachable-content'
-        if c.meta.get('zero_dim') or '(l)' in text:
+        zero_shape = re.search(r'shape \((\d+ )*0( \d+)*\)', text) or re.search(r'shapes? \(([\d,]*,)?0[,)]', text)
+        collapsed = any(l.rstrip().endswith(': (l)') for l in lines[1:])
+        if (c.meta.get('zero_dim') or '(l)' in text) and (zero_shape or collapsed):
             return 'numpy-zero-length-dimension'
-        if 'differs from to_list' in what and tree_feature(tree, lambda t: t[0] == 'rec'):
+        if 'differs from to_list' in what and tree_feature(tree, lambda t: t[0] == 'rec' and any(
+                tlen(x) > int(t[1]) for x in t[3:])):
             return 'to_numpy-record-uses-field-length'
     if 'VirtualForm cannot determine its type without an expected Form' in text:
         return 'virtual-without-form'
@@ -829,7 +863,8 @@ def auto_sig(c, obl, what, lines):
             return 'arrow-empty-option-content-cast'
         if 'min() iterable argument is empty' in text:
             return 'arrow-record-without-fields'
-        if 'pyarrow.lib.Tensor' in text or (copt(c, 'tensor', '1') == '1' and tree_feature(tree, lambda t: t[0] == 'np' and len(t[2]) > 1)):
+        if 'pyarrow.lib.Tensor' in text or ('cls Tensor' in what and copt(c, 'tensor', '1') == '1'
+                                            and tree_feature(tree, lambda t: t[0] == 'np' and len(t[2]) > 1)):
             return 'arrow-tensor-not-an-array'
         if is_partitioned(c) and 'has another value' in what and tree_feature(tree, lambda t: t[0] == 'un'):
             return 'arrow-chunked-union-merges-bool'
@@ -878,9 +913,8 @@ def check_stage(V, c, skips, stage, it, obl, must=True):
         V.bump('env-skip')
         return None
     if must:
-        sig = signature_of(c, stage, exc, msg)
         V.add('viol', obl, '%s/%s raised %s: %s' % (c.op, stage, exc, short(msg.split('\n')[0], 300)), c,
-              [case_line(c), '# stage %s: %s' % (stage, short(msg.replace('\n', ' | '), 600))], sig=sig)
+              [case_line(c), '# stage %s: %s' % (stage, short(msg.replace('\n', ' | '), 600))])
     return None
 
 
@@ -893,16 +927,6 @@ def input_stage(V, c, skips, items):
         V.bump('input-refused')
         return None
     return check_stage(V, c, skips, 'in', fld(items, 'in'), 'harness')
-
-
-def signature_of(c, stage, exc, msg):
-    """known-finding signatures (structural, from the exception and the input)"""
-    tree = c.meta.get('tree')
-    if exc == 'AttributeError' and "'list' object has no attribute 'values'" in msg and stage == 'lazy':
-        return 'buffers-lazy-tuple-record'
-    if 'must not be shorter than its' in msg or 'length mismatch' in msg or 'too short' in msg:
-        return 'buffers-trimmed-content-under-untrimmed-parent'
-    return None
 
 
 def compare_roundtrip(V, c, stage, inf, rtf, obl, check_form_params=True, what='round trip'):
@@ -1232,7 +1256,7 @@ def check_arrow(V, c, res, skips):
     else:
         pv = unparse(arrow_norm_value(fld(pl, 'val')[1]))
         if pv != ivn:
-            V.add('viol', obl, 'arrow: pyarrow to_pylist of to_arrow(a) differs from to_list(a) [%s]' % unhx(get(ta, 'atype')), c,
+            V.add('viol', obl, 'arrow: pyarrow to_pylist of to_arrow(a) differs from to_list(a) [%s; cls %s]' % (unhx(get(ta, 'atype')), get(ta, 'cls')), c,
                   [case_line(c), '# to_list:   ' + short(ivn), '# to_pylist: ' + short(pv)], sig=None)
             good = False
     bk = check_stage(V, c, skips, 'back', fld(items, 'back'), obl2)
@@ -1241,7 +1265,7 @@ def check_arrow(V, c, res, skips):
     else:
         bv = unparse(arrow_norm_value(fld(bk, 'val')[1]))
         if bv != ivn:
-            V.add('viol', obl2, 'arrow: from_arrow(to_arrow(a)) has another value than a [%s]' % unhx(get(ta, 'atype')), c,
+            V.add('viol', obl2, 'arrow: from_arrow(to_arrow(a)) has another value than a [%s; cls %s]' % (unhx(get(ta, 'atype')), get(ta, 'cls')), c,
                   [case_line(c), '# a:    ' + short(ivn), '# back: ' + short(bv)], sig=None)
             good = False
         if get(bk, 'valid') != '1':
